@@ -78,7 +78,7 @@ CLAIMS = {
         ref="DESIGN.md §11.3"),
     "C03": dict(
         technique="Lean 4 refinement proof: every routine of the statement-by-statement parser model (decoder state, limits, offsets, panic sites) started inside an instruction whose remaining words are ws behaves as the specification recogniser on ws — success with the same value and remaining words, or no success; exact limit accounting on successful paths (an instruction whose declared extent overruns the stream is never accepted); Complete only at the end of the stream; stream-level theorem by induction over the parse loop",
-        text="Machine-checked for the regenerated tables, every byte string below 2^63 bytes and a continuing consumer: the parse succeeds iff the binary has five header words with the magic number first and the recogniser consumes every instruction word (word count non-zero, opcode known, extent inside the stream, operands matching the grammar with no word left over); the consumer receives initialize, the header, exactly the recognised instructions in stream order each once, and finalize iff the parse succeeds; on rejection it never receives finalize and the result is an instruction-level error other than Complete, or the header errors for short / wrong-magic / byte-swapped headers. What the error value carries (kind, instruction number, byte offset) is decided by the differential and its oracle: C03_partial at that layer. Consumers that stop are C14's subject.",
+        text="Machine-checked for the regenerated tables, every byte string below 2^63 bytes and a continuing consumer: the parse succeeds iff the binary has five header words with the magic number first and the recogniser consumes every instruction word (word count non-zero, opcode known, extent inside the stream, operands matching the grammar with no word left over); the consumer receives initialize, the header, exactly the recognised instructions in stream order each once, and finalize iff the parse succeeds; on rejection it never receives finalize and the result is an instruction-level error other than Complete which carries (where its kind has the field) the 1-based number of the first unrecognised instruction and a byte offset inside that instruction's declared extent [start, start + 4*word count] (C03_reject), or the header errors for short / wrong-magic / byte-swapped headers. Which error kind is reported for which fault is decided by the differential and its oracle. Consumers that stop are C14's subject.",
         note="Trusted: as C02. Known finding: BankBitsINTEL's variadic parameter (Khronos grammar) is read as one literal.",
         ref="DESIGN.md §11.3"),
     "C04": dict(
